@@ -11,9 +11,10 @@ REPO = os.environ.get("VERIF_REPO", "/repo")
 
 def functions(path):
     src = open(path).read()
-    k = src.find("#[cfg(test)]\nmod ")
-    if k >= 0: src = src[:k]
+    m0 = re.search(r"#\[cfg\(test\)\]\s*(?:pub(?:\([^)]*\))?\s+)?mod\s+\w+", src)
+    if m0: src = src[:m0.start()]
     src = strip_comments(src)
+    src = re.sub(r"#\[test\]\s*fn\s+\w+", "", src)
     out = []
     for m in re.finditer(r"(#\[cfg\(test\)\]\s*(?:#\[[^\]]*\]\s*)*)?(?:pub(?:\([^)]*\))?\s+)?(?:const\s+)?fn\s+(\w+)", src):
         if m.group(1): continue
